@@ -515,28 +515,28 @@ type Config struct {
 	Probes    int      `json:"probes"` // max probes after each sequence (0 = none, <0 = all)
 	Misuse    int      `json:"misuse"` // max misuse probes after each sequence
 	Seed      int64    `json:"seed"`
-	EveryOp   bool     `json:"everyop"`   // run the probe battery after every operation instead of at the end
-	Reuse     bool     `json:"reuse"`     // keep unregistered filter objects and reuse them
-	MaxEnt    int      `json:"maxent"`    // driver: soft bound on the number of alive entities
-	Observers int      `json:"observers"` // driver: max simultaneously registered observers (0 = none)
-	ResetP    int      `json:"resetp"`    // driver: per-mille probability of World.Reset / DumpLoad per step
-	RegLocked bool     `json:"reglocked"` // driver: attempts to register a new component type while the world is locked
-	DumpCopy  bool     `json:"dumpcopy"`  // DumpLoad: every load gets its own deserialised copy of the dump (another process)
-	ResP      int      `json:"resp"`      // driver: per-mille probability of a resource operation per step
-	TypedObs  bool     `json:"typedobs"`  // register observers through Observer1..4 where the observed set allows
-	Arity     bool     `json:"arity"`     // driver: draw component sets from the instantiated tuples of all arities
+	EveryOp   bool     `json:"everyop"`             // run the probe battery after every operation instead of at the end
+	Reuse     bool     `json:"reuse"`               // keep unregistered filter objects and reuse them
+	MaxEnt    int      `json:"maxent"`              // driver: soft bound on the number of alive entities
+	Observers int      `json:"observers"`           // driver: max simultaneously registered observers (0 = none)
+	ResetP    int      `json:"resetp"`              // driver: per-mille probability of World.Reset / DumpLoad per step
+	RegLocked bool     `json:"reglocked"`           // driver: attempts to register a new component type while the world is locked
+	DumpCopy  bool     `json:"dumpcopy"`            // DumpLoad: every load gets its own deserialised copy of the dump (another process)
+	ResP      int      `json:"resp"`                // driver: per-mille probability of a resource operation per step
+	TypedObs  bool     `json:"typedobs"`            // register observers through Observer1..4 where the observed set allows
+	Arity     bool     `json:"arity"`               // driver: draw component sets from the instantiated tuples of all arities
 	GridArity []int    `json:"gridarity,omitempty"` // coverage-guided targets: prefer the tuples of these arities (top-up runs of C14)
-	Grid      int      `json:"grid"`      // percent of driver operations drawn coverage-guided (grid.go)
-	Unbatch   bool     `json:"unbatch"`   // execute batch operations as the single-entity operations they abbreviate (C06)
-	BatchN    int      `json:"batchn"`    // driver: maximum size of NewBatch (default 5)
-	ObsP      int      `json:"obsp"`      // driver: per-mille probability of an observer operation per step
-	RegMax    int      `json:"regmax"`    // registry histories: register at most this many types (0: beyond the build's limit)
-	MapT      bool     `json:"mapt"`      // single-component operations through the hand-written ecs.Map[T] instead of Map1
-	Mem       bool     `json:"mem"`       // emit mem events (heap objects of pointer-bearing components after forced GC)
-	GCStress  bool     `json:"gcstress"`  // collect garbage continuously in the background while histories run
-	QMis      bool     `json:"qmis"`      // run the query / mapper misuse battery after each history (C20)
-	Stats     bool     `json:"stats"`     // emit a stats event (with replayed twin) after each history
-	Queries   int      `json:"queries"`   // driver: max simultaneously open queries (0 = none)
+	Grid      int      `json:"grid"`                // percent of driver operations drawn coverage-guided (grid.go)
+	Unbatch   bool     `json:"unbatch"`             // execute batch operations as the single-entity operations they abbreviate (C06)
+	BatchN    int      `json:"batchn"`              // driver: maximum size of NewBatch (default 5)
+	ObsP      int      `json:"obsp"`                // driver: per-mille probability of an observer operation per step
+	RegMax    int      `json:"regmax"`              // registry histories: register at most this many types (0: beyond the build's limit)
+	MapT      bool     `json:"mapt"`                // single-component operations through the hand-written ecs.Map[T] instead of Map1
+	Mem       bool     `json:"mem"`                 // emit mem events (heap objects of pointer-bearing components after forced GC)
+	GCStress  bool     `json:"gcstress"`            // collect garbage continuously in the background while histories run
+	QMis      bool     `json:"qmis"`                // run the query / mapper misuse battery after each history (C20)
+	Stats     bool     `json:"stats"`               // emit a stats event (with replayed twin) after each history
+	Queries   int      `json:"queries"`             // driver: max simultaneously open queries (0 = none)
 }
 
 type regFilter struct {
